@@ -351,6 +351,23 @@ pub fn gen_logical(r: &mut Rng, cfg: &Cfg, o: &GenOpts) -> Logical {
         };
         extra.push((name.to_string(), (0..nv).map(|_| gen_header_value(r)).collect()));
     }
+    // S3-style clients declare the payload digest in a header; make that header truthful most of the time so that
+    // anything that trusts it instead of hashing the body becomes observable under body mutations
+    if form_pairs.is_none() {
+        let declared = match r.below(6) {
+            0 => None,
+            1 => Some(b"UNSIGNED-PAYLOAD".to_vec()),
+            _ => Some(sha::hex(&sha::sha256(&body)).into_bytes()),
+        };
+        if let Some(d) = declared {
+            let pos = extra.iter().position(|(n, _)| n == "x-amz-content-sha256");
+            match pos {
+                Some(p) => extra[p].1 = vec![d],
+                None if cfg.s3 && r.coin() => extra.push(("x-amz-content-sha256".to_string(), vec![d])),
+                None => {}
+            }
+        }
+    }
     // requirement-driven headers
     for h in &cfg.reqs.always {
         let l = h.to_ascii_lowercase();
